@@ -12,5 +12,7 @@ pub mod props {
     pub mod c05;
     #[cfg(feature = "serde")]
     pub mod c06;
+    pub mod c07;
+    pub mod c08;
     pub mod c12;
 }
